@@ -480,7 +480,49 @@ def path_lemmas(reg, tier):
     return [solve.discharge_fresh(VC(f'{PROPERTY}:lemma:bundle-path-injective', [a >= 0, b >= 0, d(a) == d(b)], a == b, kind='lemma'), 30000)]
 
 
-EXTRA_OBLIGATIONS = [path_lemmas]
+def static_distinct_prefixes(reg, tier):
+    """the Loader facade: every sub-loader constructed in Loader.__init__ is given its own file prefix (os.path.join(<phase directory>, config.<CONSTANT>)): no two
+    sub-loaders share a path expression, every constant resolves to a string literal of config.py, and the resulting paths are pairwise distinct — else two loaders
+    overwrite each other's .bundleN / .indexing files and a read returns what another loader saved. Structural (AST of loader.py + config.py)."""
+    import ast
+    import os
+    from lianvc import source
+    tree = ast.parse(open(os.path.join(source.REPO, 'src/lian/util/loader.py'), encoding='utf-8').read())
+    cfg = ast.parse(open(os.path.join(source.REPO, 'src/lian/config/config.py'), encoding='utf-8').read())
+    consts = {}
+    for n in cfg.body:
+        if isinstance(n, ast.Assign) and len(n.targets) == 1 and isinstance(n.targets[0], ast.Name) and isinstance(n.value, ast.Constant) and isinstance(n.value.value, str):
+            consts[n.targets[0].id] = n.value.value
+    init = [f for c_ in tree.body if isinstance(c_, ast.ClassDef) and c_.name == 'Loader' for f in c_.body if isinstance(f, ast.FunctionDef) and f.name == '__init__']
+    dirs, paths = {}, []
+    for st_ in (init[0].body if init else []):
+        if isinstance(st_, ast.Assign) and len(st_.targets) == 1 and isinstance(st_.targets[0], ast.Attribute) and isinstance(st_.value, ast.Call):
+            tgt, call = st_.targets[0].attr, st_.value
+            if ast.unparse(call.func) == 'os.path.join':
+                dirs[tgt] = [ast.unparse(a) for a in call.args]
+            else:
+                for j in [a for a in list(call.args) + [k.value for k in call.keywords] if isinstance(a, ast.Call) and ast.unparse(a.func) == 'os.path.join']:
+                    paths.append((tgt, [ast.unparse(a) for a in j.args]))
+
+    def val(a):
+        if a.startswith('config.'):
+            return consts.get(a[7:], '?' + a)
+        if a.startswith('self.') and a[5:] in dirs:
+            return '/'.join(val(x) for x in dirs[a[5:]])
+        return '<' + a + '>'
+    by_expr, by_val = {}, {}
+    for tgt, args in paths:
+        by_expr.setdefault(tuple(args), []).append(tgt)
+        by_val.setdefault('/'.join(val(a) for a in args), []).append(tgt)
+    dup = sorted(v for v in by_expr.values() if len(v) > 1) + sorted(v for v in by_val.values() if len(v) > 1)
+    unresolved = sorted(k for k in by_val if '?' in k)
+    ok = len(paths) >= 40 and not dup and not unresolved
+    detail = f'sub-loaders sharing a file prefix: {dup[:3]}; unresolved constants: {unresolved[:3]}; {len(paths)} sub-loader paths found'
+    return [dict(name=f'{PROPERTY}:static:every-sub-loader-of-the-Loader-facade-has-its-own-file-prefix', kind='static', verdict='unsat' if ok else 'sat', backend='ast-evaluation',
+                 time_s=0.0, model=None if ok else {'detail': detail}, reason='' if ok else detail)]
+
+
+EXTRA_OBLIGATIONS = [path_lemmas, static_distinct_prefixes]
 
 
 def bounded_hooks(tier, seed):
